@@ -40,7 +40,11 @@ inductive Act where
   | put (k : Key) (v : Val) | del (k : Key)
   | size                      -- len(m)
   | range                     -- collect all values by iterating m
-  | use                       -- work on the private copy only
+  | use                       -- work on the private copy only (read it, call callbacks, spawn goroutines)
+  | mutate                    -- reorder / overwrite IN PLACE the slice the thread's last listing returned
+                              -- (what the built-in /server and /glist do: sortServers(proxy.Servers()))
+  | rangeCached               -- NOT in the tree: a listing served from a cached slice, built by the first
+                              -- caller after a change and handed (same backing array) to every later caller
   deriving Repr, DecidableEq
 
 inductive Task where
@@ -48,12 +52,20 @@ inductive Task where
   | iterNext (i : Nat)        -- the range loop is at element i
   deriving Repr, DecidableEq
 
-/-- a finished range: who, what it returned, the map content when the range began (ghost) -/
+/-- a finished listing: who, what it returned (content at return time), the map content when the range
+    began (ghost), and the slice (index into the heap of backing arrays) that was handed to the caller -/
 structure Out where
   tid : Nat
   listing : List Val
   began : GMap
+  handle : Nat
   deriving Repr, DecidableEq
+
+/-- what an in-place reordering does to a slice (any length-preserving function would do: the theorems
+    do not depend on it; this one duplicates the second element over the first, the first half of a swap) -/
+def scramble : List Val → List Val
+  | _ :: b :: r => b :: b :: r
+  | l => l
 
 structure Sys where
   m : GMap
@@ -66,6 +78,10 @@ structure Sys where
   began : Nat → GMap          -- ghost: map content at the thread's last iterBegin
   threads : List (List Task)
   outs : List Out
+  heap : List (List Val)      -- the backing arrays of all slices handed out so far
+  mine : Nat → Option Nat     -- the slice a thread got from its last listing
+  dirty : List Nat            -- ghost: slices that were mutated in place after they were returned
+  cache : Option Nat          -- cached-listing variant only: the slice that is handed out again
 
 def updF {α} (f : Nat → α) (t : Nat) (a : α) : Nat → α := fun x => if x = t then a else f x
 
@@ -101,12 +117,30 @@ def stepTask (s : Sys) (t : Nat) (task : Task) (rest : List Task) : Option Sys :
                   acc := updF s.acc t [], began := updF s.began t s.m,
                   threads := s.threads.set t (.iterNext 0 :: rest) }
   | .act .use => some { s with threads := s.threads.set t rest }
+  | .act .mutate =>
+    match s.mine t with
+    | some h => some { s with heap := s.heap.set h (scramble (s.heap.getD h [])), dirty := h :: s.dirty,
+                              threads := s.threads.set t rest }
+    | none => some { s with threads := s.threads.set t rest }
+  | .act .rangeCached =>
+    match s.cache with
+    | some h =>   -- fast path: no lock, the SAME slice again
+      some { s with outs := s.outs ++ [⟨t, s.heap.getD h [], s.m, h⟩], mine := updF s.mine t (some h),
+                    threads := s.threads.set t rest }
+    | none =>     -- build under the read lock (one section), remember the slice
+      if s.writer.isNone then
+        some { s with outs := s.outs ++ [⟨t, s.m.vals, s.m, s.heap.length⟩], heap := s.heap ++ [s.m.vals],
+                      mine := updF s.mine t (some s.heap.length), cache := some s.heap.length,
+                      threads := s.threads.set t rest }
+      else none
   | .iterNext i =>
     match s.m[i]? with
     | some e => some { s with race := s.race || !s.canRead t, acc := updF s.acc t (s.acc t ++ [e.2]),
                               threads := s.threads.set t (.iterNext (i + 1) :: rest) }
-    | none => some { s with race := s.race || !s.canRead t, iterating := s.iterating.erase t,
-                            outs := s.outs ++ [⟨t, s.acc t, s.began t⟩], threads := s.threads.set t rest }
+    | none =>   -- the loop is done: the collected values are a FRESH slice owned by the caller
+      some { s with race := s.race || !s.canRead t, iterating := s.iterating.erase t,
+                    outs := s.outs ++ [⟨t, s.acc t, s.began t, s.heap.length⟩], heap := s.heap ++ [s.acc t],
+                    mine := updF s.mine t (some s.heap.length), threads := s.threads.set t rest }
 
 def step (s : Sys) (t : Nat) : Option Sys :=
   match s.threads[t]? with
@@ -119,7 +153,8 @@ def exec (s : Sys) : List Nat → Option Sys
 
 def mkSys (m0 : GMap) (progs : List (List Act)) : Sys :=
   { m := m0, writer := none, readers := [], iterating := [], race := false, fatal := false,
-    acc := fun _ => [], began := fun _ => [], threads := progs.map (·.map Task.act), outs := [] }
+    acc := fun _ => [], began := fun _ => [], threads := progs.map (·.map Task.act), outs := [],
+    heap := [], mine := fun _ => none, dirty := [], cache := none }
 
 /-! ### lock discipline of a program (decidable; evaluated on programs derived from the source) -/
 
@@ -141,7 +176,8 @@ def Held.after : Held → Act → Option Held
   | .r, .range => some .r
   | .w, .range => some .w
   | h, .use => some h
-  | _, _ => Option.none
+  | h, .mutate => some h          -- touches only the caller's own slice: allowed anywhere
+  | _, _ => Option.none           -- in particular `.rangeCached` is never part of a well-locked program
 
 /-- a program is well locked from mode `h`: every action is allowed and nothing is held at the end -/
 def wl : Held → List Act → Bool
